@@ -167,6 +167,7 @@ type proxyCaseT struct {
 	mf      int
 	retries int
 	cb      bool
+	rm      int
 	ups     []pup
 	evs     []pev
 	rnd     randSpec
@@ -177,6 +178,17 @@ func (c proxyCaseT) limit(i int) int {
 		return c.ups[i].max
 	}
 	return c.m
+}
+
+// retryable: may the request be tried again after an error that is not a dial error?
+func (c proxyCaseT) retryable(get bool) bool {
+	switch c.rm {
+	case 1:
+		return !get
+	case 3:
+		return true
+	}
+	return get
 }
 
 func (c proxyCaseT) passive() bool { return c.m > 0 || c.fd || c.mf > 0 }
@@ -215,6 +227,13 @@ func parseProxy(f []string) (proxyCaseT, bool) {
 		}
 	}
 	cf := strings.Split(f[3], ":")
+	if len(cf) == 6 && len(cf[5]) == 1 && cf[5][0] >= '0' && cf[5][0] <= '3' {
+		c.rm = int(cf[5][0] - '0')
+		cf = cf[:5]
+		if cf[4] != "0" && cf[4] != "1" {
+			return c, false
+		}
+	}
 	if len(cf) == 5 && (cf[4] == "0" || cf[4] == "1") {
 		c.cb = cf[4] == "1"
 		cf = cf[:4]
@@ -320,6 +339,14 @@ func runProxy(f []string) core.Outcome {
 	}
 	if c.retries > 0 {
 		lb["retries"] = c.retries
+	}
+	switch c.rm {
+	case 1:
+		lb["retry_match"] = []map[string]any{{"method": []string{"POST"}}}
+	case 2:
+		lb["retry_match"] = []map[string]any{{"method": []string{"GET"}}}
+	case 3:
+		lb["retry_match"] = []map[string]any{{"method": []string{"GET", "POST"}}}
 	}
 	hj := map[string]any{"transport": map[string]any{"protocol": "c08probe", "case": caseID}}
 	if len(lb) > 0 {
@@ -469,11 +496,16 @@ func runProxy(f []string) core.Outcome {
 			if failedBefore[sel] && !c.dynamic && c.fd && c.maxFails() == 1 {
 				add("proxy-retried-unhealthy-upstream", fmt.Sprintf("static upstreams, event %d: upstream %d failed earlier in this request (fail_duration set, max_fails 1) and was tried again (tried %v)", t, sel, att))
 			}
-			if k > 0 && !e.get && c.ups[att[k-1]].bad == 2 {
-				add("proxy-post-retried", fmt.Sprintf("%s upstreams, event %d: a POST request was retried after an error that was not a dial error (tried %v)", mode, t, att))
+			if k > 0 && !c.retryable(e.get) && c.ups[att[k-1]].bad == 2 {
+				add("proxy-post-retried", fmt.Sprintf("%s upstreams, event %d: a request that must not be repeated (POST by default; not matched by lb_retry_match) was retried after an error that was not a dial error (tried %v)", mode, t, att))
 			}
 			if !(ok && k == len(att)-1) {
 				failedBefore[sel] = true
+			}
+		}
+		if !ok && len(att) > 0 && iterations == len(att) && iterations < c.retries+1 {
+			if last := c.ups[att[len(att)-1]].bad; last == 1 || (last == 2 && c.retryable(e.get)) {
+				add("proxy-gave-up-with-retries-left", fmt.Sprintf("%s upstreams, event %d: the request failed after %d of %d allowed iterations although it may be tried again (dial error, or GET / matched by lb_retry_match) (tried %v)", mode, t, iterations, c.retries+1, att))
 			}
 		}
 		if len(att) == 0 && !ok {
@@ -860,6 +892,11 @@ func genProxy(rng *core.Rand) string {
 			}
 			evs = append(evs[:at], append([]string{ev}, evs[at:]...)...)
 		}
+		if rng.Chance(1, 3) {
+			cfg += ":" + strconv.Itoa(rng.Intn(4))
+		}
+	} else if rng.Chance(1, 4) {
+		cfg += ":0:" + strconv.Itoa(rng.Intn(4))
 	} else if rng.Chance(1, 10) {
 		cfg += ":0"
 	}
